@@ -479,8 +479,65 @@ def big_lit(inp, res):
         e = "(Some Raised)"
     else:
         e = "(Some (Returned %s))" % dg(exp["digest"])
-    segs = clist("{| s_block := %s; s_reps := %d |}" % (cstr(b), r) for b, r in inp["segs"])
+    segs = clist("Rep %s %d" % (cstr(b), r) for b, r in inp["segs"])
     return "{| b_file := %s; b_segs := %s; b_obs := %s; b_expect := %s |}" % (cbool(inp["file"]), segs, observed, e)
+
+
+# ---------------------------------------------------------------- non-ASCII text (round 3): OUTSIDE the Coq model
+# Judged by a Python-side oracle only: the generator's tree, lower-cased with the explicit table below (not str.lower(): the two
+# interpreters may carry different Unicode tables), tokens separated at ASCII whitespace only — no generated character is
+# Unicode whitespace — and file input (UTF-8) == string input.
+U_LOWER = {"\u00c9": "\u00e9", "\u03a9": "\u03c9", "\u0414": "\u0434", "\u00dc": "\u00fc", "\u00d1": "\u00f1"}
+U_CASELESS = ["\u00df", "\u540d", "\u524d", "\U0001d4b3", "\u2603", "\u00e9", "\u0434", "\u03c9", "\u00b7", "\u2014"]
+U_SPACES = ["\u00a0", "\u2003", "\u3000", "\u0085", "\u2028"]     # Unicode whitespace: str.split() separates tokens there too
+
+
+def u_lower(tok):
+    return "".join(U_LOWER.get(c, c.lower() if ord(c) < 128 else c) for c in tok)
+
+
+def rand_u_atom(rng):
+    pool = list(U_LOWER) + U_CASELESS + list("abXY-_?:12")
+    return "".join(rng.choice(pool) for _ in range(rng.randint(1, 8)))
+
+
+def build_utf8(rng, tier):
+    cases = []
+    n = 60 if tier == "quick" else 600
+    for _ in range(n):
+        atoms = [rand_u_atom(rng) for _ in range(5)] + ["a", "B"]
+        t = rand_tree(rng, rng.randint(1, 4), atoms)
+        if len(flatten(t)) > 40:
+            continue
+        items, trailer = render_items(rng, t, "both", rng.choice(["plain", "ws", "comments"]))
+        # non-ASCII characters inside the comments as well
+        items = [(s.replace(";", "; " + rand_u_atom(rng) + " (", 1) if ";" in s and rng.random() < 0.7 else s, tok) for s, tok in items]
+        cases.append(dict(kind="utf8", text=items_text(items, trailer), expect={"ok": " ".join(u_lower(x) for x in flatten(t))}))
+        if isinstance(t, list) and rng.random() < 0.3:
+            plain = flatten(t)
+            idxs = [i for i, x in enumerate(plain) if x in "()"]
+            i = rng.choice(idxs)
+            cases.append(dict(kind="utf8-paren-deleted", text=" ".join(plain[:i] + plain[i + 1:]), expect="raised"))
+    # Unicode whitespace: recorded, judged for file == string only (str.split() separates tokens at these characters)
+    for sp in U_SPACES:
+        cases.append(dict(kind="utf8-unicode-space", text="(a" + sp + "b ;c" + sp + "(\n" + sp + ")", expect=None))
+    cases.append(dict(kind="utf8-bom", text="\ufeff(a b)", expect=None))
+    return cases
+
+
+def judge_utf8(c, res):
+    """None when fine, else the reason"""
+    if not isinstance(res, dict) or "file" not in res:
+        return "the driver failed: %r" % (res,)
+    f, s = res["file"], res["str"]
+    if ("ok" in f) != ("ok" in s) or f.get("ok") != s.get("ok"):
+        return "file input and string input differ"
+    exp = c["expect"]
+    if exp == "raised" and "ok" in f:
+        return "unbalanced text accepted"
+    if isinstance(exp, dict) and f.get("ok") != exp["ok"]:
+        return "result differs from the token tree the text was rendered from"
+    return None
 
 
 def case_lit(inp, res):
@@ -531,12 +588,14 @@ def run(args):
     rep = Report(PROP, args.tier, args.seed)
     standard_proof_part(rep, PROP)
     rng = random.Random(args.seed * 7919 + 11)
-    n_exh, seqs, bigs = 0, [], []
+    n_exh, seqs, bigs, u_replay = 0, [], [], None
     if args.replay:
         data = json.load(open(args.replay))["input"]
         inputs = []
         if "sequence" in data:
             seqs = [data["sequence"]]
+        elif "utf8" in data:
+            u_replay = data["utf8"]
         elif "big" in data:
             bigs = [data["big"]]
         else:
@@ -588,10 +647,10 @@ def run(args):
             bcases.append({"lit": big_lit(b, res), "input": {"big": b, "summary": slim, "implementation": res},
                            "nontrivial": True, "witness_of": None, "klass": b.get("klass")})
         bver, binfo = run_case_shards(PROP + "/big", "Corr.C11", [c["lit"] for c in bcases], shard_size=1, run_fn="run_big",
-                                      header_extra="From Coq Require Import Uint63.\n")
+                                      header_extra="From Coq Require Import Uint63.\nFrom Verif Require Import Corr.BigText.\n")
         n_before = len(rep.violations)
         decide(rep, PROP, "Corr.C11", bcases, bver, binfo, explain_expr="explain_big %s",
-               header_extra="From Coq Require Import Uint63.\n")
+               header_extra="From Coq Require Import Uint63.\nFrom Verif Require Import Corr.BigText.\n")
         # the replay files of large cases get their own names (decide numbers both lists from 0)
         for j in range(n_before, len(rep.violations)):
             old, concrete = rep.violations[j]
@@ -612,6 +671,23 @@ def run(args):
                              "targets_hit": sum(1 for b in bigs if b.get("target_hit")),
                              "boundaries": boundary_table(bigs)}
     timing["big_s"] = round(time.time() - t0, 1)
+    # non-ASCII text: outside the model, Python-side oracle
+    if not args.replay or u_replay is not None:
+        ucases = [u_replay] if u_replay is not None else build_utf8(random.Random(args.seed * 7919 + 14), args.tier)
+        ures = run_impl([{"op": "c11.parse_utf8", "text": c["text"]} for c in ucases], hashseed=0, nproc=2)
+        bad = 0
+        for k, (c, r) in enumerate(zip(ucases, ures)):
+            why = judge_utf8(c, r)
+            if why:
+                bad += 1
+                if bad <= 4:
+                    rep.violation(write_replay(PROP, "utf8_%04d" % k, {"kind": "input", "why": why + " (non-ASCII text: judged by the Python-side "
+                                                                    "oracle, outside the Coq model)", "input": {"utf8": c, "implementation": r}}), True)
+        cov["utf8"] = {"cases": len(ucases), "failed": bad, "kinds": {kd: sum(1 for c in ucases if c["kind"] == kd) for kd in sorted({c["kind"] for c in ucases})},
+                       "oracle": "Python side only: generator's tree lower-cased by an explicit table; file (UTF-8) == string",
+                       "unicode_space_observed": {repr(c["text"][2]): r.get("str") for c, r in zip(ucases, ures) if c["kind"] == "utf8-unicode-space"},
+                       "bom_observed": [r for c, r in zip(ucases, ures) if c["kind"] == "utf8-bom"]}
+        cov["evaluations"] = cov.get("evaluations", 0) + 2 * len(ucases)
     cov["timing_s"] = timing
     if not facts_ok:
         p = write_replay(PROP, "cpython_facts", {"kind": "correspondence", "why": "CPython whitespace/lower facts differ from the model", "facts": facts})
